@@ -1724,7 +1724,10 @@ impl<'a, 'd> Gen<'a, 'd> {
         let mut cands = vec![];
         for (v, _) in self.visible() {
             if let Ty::Fn(ps, r) = self.var_ty(v).clone() {
-                if !r.has_param() && !ps.iter().any(|t| t.has_param()) {
+                // (a parameter of the enclosing generic function's type parameter is fine:
+                // values of that type are in scope)
+                let ok = |t: &Ty| !t.has_param() || (self.cur_tparams > 0 && matches!(t, Ty::Param(_)));
+                if !r.has_param() && ps.iter().all(ok) {
                     cands.push((v, ps, *r));
                 }
             }
@@ -1822,7 +1825,13 @@ impl<'a, 'd> Gen<'a, 'd> {
             },
             5 => {
                 let n = self.d.below(3);
-                let ps: Vec<Ty> = (0..n).map(|_| self.ty(1)).collect();
+                let mut ps: Vec<Ty> = (0..n).map(|_| self.ty(1)).collect();
+                // inside a generic function a closure parameter may have the type parameter's type
+                if self.cur_tparams > 0 && self.d.chance(110) {
+                    let k = self.d.below(self.cur_tparams as usize) as u32;
+                    ps.push(Ty::Param(k));
+                    self.label("closure:param-of-type-parameter");
+                }
                 let r = self.ty(1);
                 let c = self.closure(&ps, &r, fuel, true);
                 let v = self.new_var(Ty::Fn(ps, Box::new(r)), true);
@@ -1902,6 +1911,14 @@ impl<'a, 'd> Gen<'a, 'd> {
         let n = self.d.below(3);
         let mut taken: Vec<String> = vec![];
         let mut params = vec![];
+        // `fn pick[T, U](p: U, ..) -> Vec[T]`: one parameter is fixed by an argument, the
+        // other by the expected result only
+        let two = self.d.bool();
+        if two {
+            let t = Ty::Param(1);
+            params.push((self.fresh_named("p", t.clone()), t));
+            self.label("generic-fn:phantom-result-mixed");
+        }
         for _ in 0..n {
             let t = self.ty(1);
             params.push((self.new_param(t.clone(), &mut taken), t));
@@ -1920,7 +1937,7 @@ impl<'a, 'd> Gen<'a, 'd> {
         self.phantom_fns.insert(idx);
         self.p.fns[idx] = FnDef {
             name: self.item_name(&HOSTILE_FNS, format!("f{}", idx)),
-            tparams: 1,
+            tparams: if two { 2 } else { 1 },
             params,
             ret,
             body: Expr::Block(stmts, Some(Box::new(fin))),
